@@ -36,9 +36,9 @@ vars == <<prog, phase, sym, src, lists, py, last>>
 SW == [par |-> SympyParenthesises, safe |-> SafeNames, disc |-> ClassifiesDiscrete, valx |-> PrintsValueExpressions,
        one |-> OneListPerVariable]
 (* Pinned: the switches as the originally pinned code behaved (shape tags are computed from them);
-   AsBuilt: as the code behaves now - all four deviations have been repaired in /repo since *)
+   AsBuilt: as the code behaves now - all five deviations have been repaired in /repo since *)
 Pinned   == [par |-> FALSE, safe |-> FALSE, disc |-> FALSE, valx |-> FALSE, one |-> FALSE]
-AsBuilt  == [par |-> TRUE,  safe |-> TRUE,  disc |-> TRUE,  valx |-> TRUE,  one |-> FALSE]
+AsBuilt  == [par |-> TRUE,  safe |-> TRUE,  disc |-> TRUE,  valx |-> TRUE,  one |-> TRUE]
 Intended == [par |-> TRUE,  safe |-> TRUE,  disc |-> TRUE,  valx |-> TRUE,  one |-> TRUE]
 
 -----------------------------------------------------------------------------
@@ -80,6 +80,11 @@ E(k, n, a, v) == [k |-> k, n |-> n, a |-> a, v |-> v]
 Ref(key)     == E("ref", key, <<>>, 0)
 Lit(i)       == E("lit", "", <<>>, i)
 TimeE        == E("time", "", <<>>, 0)
+(* a Real literal given by its decimal spelling (long mantissa, large or tiny magnitude).  TLC's integers cannot hold
+   it, so the meaning is taken with the literal as a PARAMETER `dec` of the environment: the programs of the family are
+   affine in it (invariant DecAffine), hence the values at dec = 0 and dec = 1 determine the value for the real literal,
+   value = r0 + (r1 - r0) * literal, which the binding forms with exact rationals *)
+DecL(text)   == E("dec", text, <<>>, 0)
 Der(key)     == E("der", "", <<Ref(key)>>, 0)
 Un(o, x)     == E("un", o, <<x>>, 0)
 Call(f, x)   == E("call", f, <<x>>, 0)
@@ -92,6 +97,7 @@ Eval(e, env) ==
     CASE e.k = "ref"  -> env.val[e.n]
       [] e.k = "lit"  -> FromInt(e.v)
       [] e.k = "time" -> env.t
+      [] e.k = "dec"  -> env.dec
       [] e.k = "der"  -> env.der[e.a[1].n]
       [] e.k = "un"   -> IF e.n = "-" THEN RNeg(Eval(e.a[1], env)) ELSE Eval(e.a[1], env)
       [] e.k = "call" -> Fun(e.n, Eval(e.a[1], env))
@@ -118,9 +124,11 @@ PTime == <<1, 2, -2>>
 NPoints == 3
 Idx(p, key) == CHOOSE i \in DOMAIN p.vars : p.vars[i].key = key
 Keys(p) == {p.vars[i].key : i \in DOMAIN p.vars}
-Env(p, pt) == [val |-> [k \in Keys(p) |-> FromInt(PVal[pt][Idx(p, k)])],
-               der |-> [k \in Keys(p) |-> FromInt(PDer[pt][Idx(p, k)])],
-               t   |-> FromInt(PTime[pt])]
+EnvD(p, pt, dv) == [val |-> [k \in Keys(p) |-> FromInt(PVal[pt][Idx(p, k)])],
+                    der |-> [k \in Keys(p) |-> FromInt(PDer[pt][Idx(p, k)])],
+                    t   |-> FromInt(PTime[pt]),
+                    dec |-> dv]
+Env(p, pt) == EnvD(p, pt, Zero)
 
 -----------------------------------------------------------------------------
 (* ---- declarative side of the property ---- *)
@@ -144,9 +152,11 @@ ExpectLists(p) ==
      u |-> SelKeys(p, LAMBDA i : Cat(p, i) = "u"),
      y |-> SelKeys(p, LAMBDA i : (p.vars[i].pre = "output" \/ p.vars[i].caus = "output") /\ Cat(p, i) \in {"x", "v"})]
 
-ExpectRes(p) == [pt \in 1..NPoints |-> [q \in DOMAIN p.eqs |-> Residual(p.eqs[q], Env(p, pt))]]
+ExpectResD(p, dv) == [pt \in 1..NPoints |-> [q \in DOMAIN p.eqs |-> Residual(p.eqs[q], EnvD(p, pt, dv))]]
+ExpectRes(p) == ExpectResD(p, Zero)
 
-Expect(p) == [valid |-> TRUE, runs |-> TRUE, nsym |-> Len(p.vars), lists |-> ExpectLists(p), res |-> ExpectRes(p)]
+Expect(p) == [valid |-> TRUE, runs |-> TRUE, nsym |-> Len(p.vars), lists |-> ExpectLists(p), res |-> ExpectRes(p),
+              res1 |-> ExpectResD(p, One)]
 
 -----------------------------------------------------------------------------
 (* ---- operational side, phase 1: identifiers (exitSymbol / exitComponentRef) ---- *)
@@ -186,6 +196,7 @@ DiffT == T("diff", ".diff(self.t)", 0, NoId)
 SelfT == T("selft", "self.t", 0, NoId)
 OpT(o) == T("op", o, 0, NoId)
 NumT(i) == T("num", "", i, NoId)
+DecT(text) == T("dec", text, 0, NoId)
 IdT(id) == T("id", "", 0, id)
 
 W(ts, par) == IF par THEN <<LP>> \o ts \o <<RP>> ELSE ts
@@ -195,6 +206,7 @@ Src(e, sy, par) ==
     CASE e.k = "ref"  -> <<IdT(sy[e.n])>>
       [] e.k = "lit"  -> <<NumT(e.v)>>
       [] e.k = "time" -> <<SelfT>>
+      [] e.k = "dec"  -> <<DecT(e.n)>>
       [] e.k = "der"  -> <<LP>> \o Src(e.a[1], sy, par) \o <<RP, DiffT>>
       [] e.k = "un"   -> <<OpT(e.n)>> \o W(Src(e.a[1], sy, par), par)
       [] e.k = "call" -> <<IdT(FunId(e.n)), LP>> \o Src(e.a[1], sy, par) \o <<RP>>
@@ -268,6 +280,7 @@ PAtom(ts, i) ==
     IF i > Len(ts) THEN Bad
     ELSE CASE ts[i].t = "num"   -> Ok(P("lit", "", <<>>, ts[i].v, NoId), i + 1)
            [] ts[i].t = "selft" -> Ok(P("time", "", <<>>, 0, NoId), i + 1)
+           [] ts[i].t = "dec"   -> Ok(P("dec", ts[i].s, <<>>, 0, NoId), i + 1)
            [] ts[i].t = "id"    -> Ok(P("pyid", "", <<>>, 0, ts[i].id), i + 1)
            [] ts[i].t = "lp"    -> LET r == PExpr(ts, i + 1) IN
                                    IF r.ok /\ At(ts, r.i, "rp") THEN Ok(r.e, r.i + 1) ELSE Bad
@@ -316,6 +329,7 @@ RECURSIVE PyEval(_, _)
 PyEval(e, penv) ==
     CASE e.k = "lit"  -> FromInt(e.v)
       [] e.k = "time" -> penv.t
+      [] e.k = "dec"  -> penv.dec
       [] e.k = "pyid" -> IF e.id \in DOMAIN penv.val THEN penv.val[e.id] ELSE Err
       [] e.k = "diff" -> IF e.a[1].k = "pyid" /\ e.a[1].id \in DOMAIN penv.der THEN penv.der[e.a[1].id] ELSE Err
       [] e.k = "un"   -> IF e.n = "-" THEN RNeg(PyEval(e.a[1], penv)) ELSE PyEval(e.a[1], penv)
@@ -352,12 +366,13 @@ Load(p, sy, sr, ls, sw) ==
         \* identity of a sympy symbol: its name and its kind (sympy.symbols for p, c; dynamicsymbols for x, v, u)
         symobjs == {<<sy[k], TRUE>> : k \in Range(ls.p) \cup Range(ls.c)}
                    \cup {<<sy[k], FALSE>> : k \in Range(ls.x) \cup Range(ls.v) \cup Range(ls.u)}
-        penv(pt) == LET e == Env(p, pt) IN
+        penv(pt, dv) == LET e == Env(p, pt) IN
                     [val |-> [id \in bound |-> e.val[LastBound(p, sy, ls, id)]],
                      der |-> [id \in bound |-> IF plain(LastBound(p, sy, ls, id)) THEN Zero ELSE e.der[LastBound(p, sy, ls, id)]],
-                     t   |-> e.t]
+                     t   |-> e.t, dec |-> dv]
+        resD(dv) == [pt \in 1..NPoints |-> [q \in DOMAIN sr |-> IF runs THEN PyEval(trees[q], penv(pt, dv)) ELSE Err]]
     IN  [valid |-> valid, runs |-> runs, nsym |-> Cardinality(symobjs), lists |-> ls,
-         res |-> [pt \in 1..NPoints |-> [q \in DOMAIN sr |-> IF runs THEN PyEval(trees[q], penv(pt)) ELSE Err]]]
+         res |-> resD(Zero), res1 |-> resD(One)]
 
 (* the whole generator + Python as one function of the switches (used for tags and the as-built prediction) *)
 Pred(p, sw) ==
@@ -402,6 +417,7 @@ Tags(p) ==
         \cup (IF Uses(p, {"call"}) THEN {"has-call"} ELSE {})
         \cup (IF Uses(p, {"der"}) THEN {"has-der"} ELSE {})
         \cup (IF Uses(p, {"time"}) THEN {"has-time"} ELSE {})
+        \cup (IF Uses(p, {"dec"}) THEN {"decimal-literal"} ELSE {})
         \cup (IF \E i \in DOMAIN p.vars : Len(p.vars[i].parts) > 1 THEN {"dotted"} ELSE {})
 
 -----------------------------------------------------------------------------
@@ -441,6 +457,15 @@ PrecProgs(shapes, pal, fam) == {Prog(fam, FourVars, <<Eqn(Ref("w"), Fill(s, pal,
 (* the left-hand side is printed without parentheses as well *)
 LhsProgs == {Prog("lhs", FourVars, <<Eqn(Fill(s, PalA, 1).e, r)>>) : s \in S1({}), r \in {Ref("w"), Bin("-", Ref("z"), Ref("w"))}}
             \cup {Prog("lhs", FourVars, <<Eqn(Der("x"), Fill(s, <<Ref("y"), Der("x"), Ref("x")>>, 1).e)>>) : s \in S1({"sin"})}
+
+(* long / large / tiny decimal literals, additive, multiplicative (also on both sides, so that a tiny literal is not
+   absorbed by the other terms) and as a divisor's numerator *)
+DecTexts == {"3.14159265358979", "101325.25", "6.62607015e-34", "8.8541878128e-12", "1.0000000000001", "299792458.0",
+             "0.000123456789012", "1e-05", "6.02214076e+23"}
+DecProgs == {Prog("declit", FourVars, <<q>>) : q \in UNION {
+                {Eqn(Ref("w"), DecL(t)), Eqn(Ref("w"), Bin("+", Ref("x"), DecL(t))), Eqn(Ref("w"), Bin("*", DecL(t), Ref("x"))),
+                 Eqn(Ref("w"), Bin("/", Bin("-", Ref("x"), DecL(t)), Ref("y"))), Eqn(Ref("w"), Bin("*", Un("-", DecL(t)), Ref("z"))),
+                 Eqn(Bin("*", DecL(t), Ref("w")), Bin("*", DecL(t), Ref("x")))} : t \in DecTexts}}
 
 (* names: two pool names + one plain variable q; the call variant decides whether a function is applied *)
 NameEqs(a, b, f) ==
@@ -501,13 +526,13 @@ Programs ==
              \cup PrecProgs(CallShapes, PalA, "prec") \cup PrecProgs(CallShapes, PalB, "prec")
              \cup PrecProgs(K2({}), PalC, "prec") \cup LhsProgs
              \cup NameProgs(HalfPairs, {""}) \cup NameProgs(FunPairs, {"sin", "abs"}) \cup NameExtra
-             \cup ClassProgs(2) \cup Class2Progs
+             \cup ClassProgs(2) \cup Class2Progs \cup DecProgs
       [] Family = "thorough" ->
              PrecProgs(S2(AllF), PalA, "prec") \cup PrecProgs(S2(AllF), PalB, "prec")
              \cup PrecProgs(K3(QuickF), PalA, "prec") \cup PrecProgs(K3({}), PalB, "prec")
              \cup PrecProgs(S2({}), PalC, "prec") \cup LhsProgs
              \cup NameProgs(AllPairs, {"", "sin", "abs"}) \cup NameExtra
-             \cup ClassProgs(2) \cup ClassProgs(3) \cup Class2Progs
+             \cup ClassProgs(2) \cup ClassProgs(3) \cup Class2Progs \cup DecProgs
       [] Family = "cex" ->       \* small family on which the as-built switches must fail
              PrecProgs(K2({}), PalA, "prec") \cup NameProgs({<<2, 3>>, <<5, 6>>, <<1, 12>>, <<1, 13>>, <<1, 10>>}, {"", "sin"})
              \cup ClassProgs(1) \cup Class2Progs
@@ -518,7 +543,7 @@ Programs ==
 (* ---- behaviour ---- *)
 
 NoLists == [x |-> <<>>, v |-> <<>>, p |-> <<>>, c |-> <<>>, u |-> <<>>, y |-> <<>>]
-NoPy == [valid |-> FALSE, runs |-> FALSE, nsym |-> 0, lists |-> NoLists, res |-> <<>>]
+NoPy == [valid |-> FALSE, runs |-> FALSE, nsym |-> 0, lists |-> NoLists, res |-> <<>>, res1 |-> <<>>]
 
 Init == /\ prog \in Programs
         /\ phase = "start"
@@ -574,7 +599,17 @@ OneSymbolPerVariable == phase = "loaded" => py.nsym = Len(prog.vars)
 MeaningPreserved ==
     phase = "loaded" =>
         \A pt \in 1..NPoints : \A q \in DOMAIN prog.eqs :
-            LET want == Residual(prog.eqs[q], Env(prog, pt)) IN want # Err => py.res[pt][q] = want
+            /\ LET want == Residual(prog.eqs[q], Env(prog, pt)) IN want # Err => py.res[pt][q] = want
+            /\ LET want == Residual(prog.eqs[q], EnvD(prog, pt, One)) IN want # Err => py.res1[pt][q] = want
+
+(* the residuals are affine in the decimal literal: the value at dec = 2 is the one extrapolated from dec = 0 and 1 *)
+DecAffine ==
+    phase = "loaded" =>
+        \A pt \in 1..NPoints : \A q \in DOMAIN prog.eqs :
+            LET r0 == Residual(prog.eqs[q], EnvD(prog, pt, Zero))
+                r1 == Residual(prog.eqs[q], EnvD(prog, pt, One))
+                r2 == Residual(prog.eqs[q], EnvD(prog, pt, FromInt(2)))
+            IN  (r0 # Err /\ r1 # Err /\ r2 # Err) => r2 = RSub(RAdd(r1, r1), r0)
 
 (* printing with parentheses and reading back with Python's grammar returns the Modelica tree itself
    (a sanity theorem about the reader: under the intended switches nothing depends on precedence) *)
@@ -583,6 +618,7 @@ SameTree(e, t, sy) ==
     CASE e.k = "ref"  -> t.k = "pyid" /\ t.id = sy[e.n]
       [] e.k = "lit"  -> t.k = "lit" /\ t.v = e.v
       [] e.k = "time" -> t.k = "time"
+      [] e.k = "dec"  -> t.k = "dec" /\ t.n = e.n
       [] e.k = "der"  -> t.k = "diff" /\ SameTree(e.a[1], t.a[1], sy)
       [] e.k = "un"   -> t.k = "un" /\ t.n = e.n /\ SameTree(e.a[1], t.a[1], sy)
       [] e.k = "call" -> t.k = "call" /\ t.a[1].k = "pyid" /\ t.a[1].id = FunId(e.n) /\ SameTree(e.a[1], t.a[2], sy)
